@@ -9,6 +9,7 @@ import Chokan.Lemmas.Kkc
 import Chokan.Props.C03
 import Chokan.Props.C08
 import Chokan.Lemmas.ConcSess
+import Chokan.Lemmas.FineSess
 
 namespace Chokan.Props.C15
 open Chokan.Server Chokan.Kkc Chokan.Dic
@@ -488,5 +489,59 @@ example :
     Chokan.Conc.headEv d.st 1 = some (.act .popSession) ∧ d.sess = [0] ∧
     (Chokan.Conc.dstep d (1, 0)).sess = [] ∧
     ((Chokan.Conc.dstep d (1, 0)).locals.map (·.found)) = [none, some true, none, none, none] := by decide
+
+
+open Chokan.Conc Chokan.Fine Chokan.Gen.Server in
+/-- **The same with the data** (Model/Fine: the interleaving model in which every event has its effect on the server
+state of Model/Server).  Start from any server state with well-formed session ids, any requests, any schedule.  If the
+conversion thread `c` (a path of a converting handler, as extracted) has answered, it has stored a session — its fresh id,
+its context, the candidates it computed under the locks — and a confirmation thread that names this id and is about to
+pop (no confirmation of the id having popped before) gets, as its `candidate`, exactly the candidate its request's string
+names among those candidates, with the conversion's context; the session leaves the store.  When the thread then reaches
+`update_frequency`, the count of that candidate's independent word in that context rises by one (`fine_updFreq`). -/
+theorem C15_fine_confirmation_gets_answered_candidate (cfg : Chokan.Server.Cfg) (reqs : List (List Ev × Req))
+    (tasks : List (List (List Ev))) (capOf : Chan → Nat) (s0 : Chokan.Server.State)
+    (hs0 : ∀ x ∈ s0.sessions, x.sid < s0.nextSid) (sched : List (Nat × Nat)) (c u k : Nat)
+    (hc : ∃ r, reqs[c]? = some r ∧ r.1 ∈ convertingPaths handlerPaths ∧ ∃ ctx input, r.2 = Req.conv ctx input)
+    (hans : answered (frun cfg (finit chanUnbounded capOf reqs tasks s0) sched).st c = true) :
+    ∃ (lc : Fine.Local) (sess : Chokan.Server.Session),
+      (frun cfg (finit chanUnbounded capOf reqs tasks s0) sched).locals[c]? = some lc ∧ lc.stored = some sess ∧
+      ∀ (lu : Fine.Local) (id : String) (now : Int),
+        (frun cfg (finit chanUnbounded capOf reqs tasks s0) sched).locals[u]? = some lu → lu.req = Req.confirm sess.sid id now →
+        headEv (frun cfg (finit chanUnbounded capOf reqs tasks s0) sched).st u = some (.act .popSession) →
+        (∀ (u' : Nat) (lu' : Fine.Local), (frun cfg (finit chanUnbounded capOf reqs tasks s0) sched).locals[u']? = some lu' →
+          isConfirmOf lu' sess.sid → lu'.popped = false) →
+        ∃ lu', (fstep cfg (frun cfg (finit chanUnbounded capOf reqs tasks s0) sched) (u, k)).locals[u]? = some lu' ∧
+          lu'.cand = (foundCand sess id).map (fun cd => (sess.ctx, cd)) ∧ lu'.popped = true ∧
+          (fstep cfg (frun cfg (finit chanUnbounded capOf reqs tasks s0) sched) (u, k)).data.sessions.find? (·.sid == sess.sid) = none := by
+  have hpaths : ∀ p ∈ convertingPaths handlerPaths,
+      occursBefore (.act .addSession) .respond p = true ∧ .respond ∈ p := by
+    have h := C15_conc_session_before_answer.1
+    rw [List.all_eq_true] at h
+    intro p hp
+    have := h p hp
+    simp only [Bool.and_eq_true, List.contains_eq_mem, decide_eq_true_eq] at this
+    exact ⟨this.1.1.1, this.1.1.2⟩
+  have hinv := FInv_frun cfg sched (FInv_finit chanUnbounded capOf reqs tasks s0 _ hpaths hs0)
+  exact fine_pop_finds cfg hinv c u k hc hans
+
+
+open Chokan.Conc Chokan.Fine Chokan.Gen.Server in
+/-- non-vacuity, with data (the concrete configuration and start state of C08's examples): a conversion of か runs to its
+answer and stores session 0 with its candidates; its confirmation with the request string "0" takes the store lock and pops:
+the hypotheses of the theorem hold, the thread gets a candidate, the store is empty again — and running on to
+`update_frequency` learns exactly one count -/
+example :
+    let reqs : List (List Chokan.Gen.Server.Ev × Req) :=
+      ((convertingPaths handlerPaths).take 1).map (·, Req.conv .normal [12363]) ++
+      ((handlerMain.filter (·.1 == "UpdateFrequency")).map (·.2)).map (·, Req.confirm 0 "0" 7)
+    let d := frun C08.cfg (finit chanUnbounded (fun _ => 0) reqs taskPaths C08.exState)
+      [(0, 0), (0, 0), (0, 0), (0, 0), (0, 0), (0, 0), (0, 0), (0, 0), (0, 0), (1, 0)]
+    reqs.length = 2 ∧ answered d.st 0 = true ∧ headEv d.st 1 = some (.act .popSession) ∧
+    d.data.sessions.map (·.sid) = [0] ∧ (d.locals.map fun l => l.stored.map (·.cands.length)) = [some 1, none, none, none, none] ∧
+    (fstep C08.cfg d (1, 0)).data.sessions = [] ∧
+    ((fstep C08.cfg d (1, 0)).locals.map fun l => l.cand.isSome) = [false, true, false, false, false] ∧
+    (frun C08.cfg d [(1, 0), (1, 0), (1, 0)]).data.freq.map (fun e => (e.word, e.count)) = [([34442], 1)] := by
+  decide +kernel
 
 end Chokan.Props.C15
